@@ -95,7 +95,8 @@ Definition fuse_fires (cf : hconf) (h : hstate) (kind k : nat) (o : hop) : optio
   | 0, HInit c r v =>
       if zero_rule_ok c r then
         match checked_mul r c with
-        | Some p => if (p <=? cf_cap cf)%N && (S k <? N.to_nat p)
+        (* (compared as binary numbers: [p] may be far too large to write in unary) *)
+        | Some p => if (p <=? cf_cap cf)%N && (N.of_nat (S k) <? p)%N
                     then Some (h, mkObs false [] (repeat v (S k)) []) else None
         | None => None
         end
@@ -117,7 +118,7 @@ Definition fuse_fires (cf : hconf) (h : hstate) (kind k : nat) (o : hop) : optio
   | 1, HNew c r =>
       if zero_rule_ok c r then
         match checked_mul c r with
-        | Some p => if (p <=? cf_cap cf)%N && (k <? N.to_nat p)
+        | Some p => if (p <=? cf_cap cf)%N && (N.of_nat k <? p)%N
                     then Some (mkH t (h_fresh h + N.of_nat k)%N, mkObs false [] (fresh_seq (h_fresh h) k) [])
                     else None
         | None => None
